@@ -179,6 +179,48 @@ pub mod mock {
 
     pub const MAXN: usize = 12;
     pub const MAXV: usize = 6;
+    pub const MAXE: usize = 4;
+
+    #[derive(Clone, Copy, PartialEq, Eq, Debug)]
+    pub struct Block(pub usize);
+
+    /// the block terminator an arm emitted (control transfer)
+    #[derive(Clone, Copy, PartialEq, Eq, Debug)]
+    pub enum Term {
+        Jump(Block),
+        /// brif cond, then, else: goes to `then` iff cond != 0
+        Brif(Value, Block, Block),
+        /// cranelift_frontend::Switch::emit: entry whose key equals the value, else `otherwise`
+        Switch { val: Value, entries: [(u128, Block); MAXE], n: usize, otherwise: Block },
+    }
+
+    /// cranelift_frontend::Switch
+    pub struct Switch {
+        pub entries: [(u128, Block); MAXE],
+        pub n: usize,
+    }
+    impl Switch {
+        pub fn new() -> Self {
+            Switch { entries: [(0, Block(0)); MAXE], n: 0 }
+        }
+        pub fn set_entry(&mut self, index: u128, block: Block) {
+            // Cranelift: "panics if the index already has an entry"
+            let mut i = 0;
+            while i < self.n {
+                assert!(self.entries[i].0 != index, "mock: Switch::set_entry twice for one index");
+                i += 1;
+            }
+            assert!(self.n < MAXE, "mock: switch table full");
+            self.entries[self.n] = (index, block);
+            self.n += 1;
+        }
+        pub fn emit(self, b: &mut FunctionBuilder<'_>, val: Value, otherwise: Block) {
+            if !b.node(val).ty.is_int() {
+                b.ill_typed = true;
+            }
+            b.terminate(Term::Switch { val, entries: self.entries, n: self.n, otherwise });
+        }
+    }
 
     pub struct FunctionBuilder<'c> {
         pub nodes: [Node; MAXN],
@@ -193,6 +235,9 @@ pub mod mock {
         pub eval: bool,
         /// set when Cranelift's verifier would reject an emitted instruction (operand type mismatch)
         pub ill_typed: bool,
+        pub n_blocks: usize,
+        pub term: Option<Term>,
+        pub n_terms: usize,
         pub _m: core::marker::PhantomData<&'c ()>,
     }
 
@@ -223,6 +268,9 @@ pub mod mock {
                 trapped: false,
                 eval: false,
                 ill_typed: false,
+                n_blocks: 0,
+                term: None,
+                n_terms: 0,
                 _m: core::marker::PhantomData,
             }
         }
@@ -238,6 +286,35 @@ pub mod mock {
         }
         pub fn ins<'short>(&'short mut self) -> FuncInstBuilder<'short, 'c> {
             FuncInstBuilder { b: self }
+        }
+        pub fn create_block(&mut self) -> Block {
+            self.n_blocks += 1;
+            Block(self.n_blocks - 1)
+        }
+        pub fn terminate(&mut self, t: Term) {
+            self.term = Some(t);
+            self.n_terms += 1;
+        }
+        /// where control goes after the emitted terminator when the tested value has the bits it
+        /// has in this world
+        pub fn target(&self) -> Option<Block> {
+            match self.term {
+                None => None,
+                Some(Term::Jump(b)) => Some(b),
+                Some(Term::Brif(c, t, e)) => Some(if self.node(c).bits != 0 { t } else { e }),
+                Some(Term::Switch { val, entries, n, otherwise }) => {
+                    let v = self.node(val).bits as u128;
+                    let mut i = 0;
+                    let mut r = otherwise;
+                    while i < n {
+                        if entries[i].0 == v {
+                            r = entries[i].1;
+                        }
+                        i += 1;
+                    }
+                    Some(r)
+                }
+            }
         }
         pub fn declare_var(&mut self, ty: Type) -> Variable {
             assert!(self.n_vars < MAXV, "mock: variable table full");
@@ -287,6 +364,17 @@ pub mod mock {
                 v
             };
             self.b.push(ty, Kind::Bin(op, l, r), bits)
+        }
+        pub fn jump(self, block: Block, args: &[Value]) {
+            assert!(args.is_empty(), "mock: block arguments are not modelled");
+            self.b.terminate(Term::Jump(block));
+        }
+        pub fn brif(self, c: Value, then_block: Block, then_args: &[Value], else_block: Block, else_args: &[Value]) {
+            assert!(then_args.is_empty() && else_args.is_empty(), "mock: block arguments are not modelled");
+            if !self.b.node(c).ty.is_int() {
+                self.b.ill_typed = true;
+            }
+            self.b.terminate(Term::Brif(c, then_block, else_block));
         }
         pub fn iadd(self, l: Value, r: Value) -> Value {
             self.bin(Opcode::Iadd, l, r)
@@ -497,7 +585,9 @@ pub mod mock {
 pub mod codegen {
     use crate::ice;
     use crate::lir::{self, value::IrType, FloatCmp, IntCmp, IrValue, Operand, Var, VarKind};
-    use crate::mock::{ir, FloatCC, FuncInstBuilder, FunctionBuilder, IntCC, Isa, Type, VarMap, Variable, F32, F64, I16, I32, I64, I8};
+    #[allow(unused_imports)]
+    use crate::label::LabelRef;
+    use crate::mock::{ir, Block, Switch, FloatCC, FuncInstBuilder, FunctionBuilder, IntCC, Isa, Type, VarMap, Variable, F32, F64, I16, I32, I64, I8};
 
     pub struct ModuleBuilder {
         pub variable_map: VarMap<Var, (Variable, Type)>,
@@ -507,6 +597,7 @@ pub mod codegen {
     pub struct FuncGen<'c> {
         pub module: &'c mut ModuleBuilder,
         pub builder: FunctionBuilder<'c>,
+        pub block_map: VarMap<LabelRef, Block>,
     }
 
     impl ModuleBuilder {
@@ -526,6 +617,11 @@ pub mod codegen {
         /*@ARM_DIV@*/
         /*@ARM_FDIV@*/
         /*@ARM_MOD@*/
+        /*@ARM_SWITCH@*/
+        // the arm `lir::Instruction::Jump(label) => BODY` (tuple pattern: parameter written by hand)
+        pub fn arm_jump(&mut self, label: &LabelRef) /*@ARM_JUMP@*/
+
+        /*@FN_GET_BLOCK@*/
 
         /*@FN_INS@*/
 
